@@ -77,6 +77,13 @@ def unregRemove (reg : List Entry) (s : Svc) (oid : Nat) : List Entry :=
   if (Gen.Register.registry_remove_by_identity || Gen.Register.registry_remove_inner_by_identity) && !(registeredAs lower reg s oid) then reg
   else regRemove lower reg (key lower s)
 
+/-- the synchronous wrapper `Zeroconf.unregister_service` (threads themselves are not modelled): how many of the three goodbyes of
+the task have been handed to `async_send` when the call returns — all of them when the wrapper awaits the task
+(`await_awaitable`, D19 repair), only the first otherwise (the caller then cannot wait for the rest, and a `close()` that follows
+sets `done` before they are due) -/
+def syncUnregisterGoodbyesOnReturn : Nat :=
+  if Gen.Register.sync_unregister_awaits_goodbyes then Gen.Register.broadcast_count else 1
+
 /-- `async_get_infos_server(server_key)` is non-empty -/
 def hostShared (reg : List Entry) (s : Svc) : Bool := reg.any (fun e => serverKey lower e.svc == serverKey lower s)
 
